@@ -124,16 +124,22 @@ class history {
     tag = std::string(I::name) + "." + keyconv<K>::name;
   }
 
+  bool poisoned{false};
+
   void run() {
     const std::size_t base_bytes = vm::alloc_tracker::get().bytes_live();
     {
-      Db db;
-      dbp = &db;
+      // after a violation the index is deliberately leaked: its destructor may assert on the
+      // broken state and take the report with it
+      auto* db = new Db;
+      dbp = db;
       phase_plan();
       for (op = 0; op < nops && ok; ++op) step();
       if (ok) final_checks();
       held.clear();
       dbp = nullptr;
+      if (ok) delete db;
+      else poisoned = true;
     }
     // everything returned at destruction
     const auto after = vm::alloc_tracker::get().bytes_live();
@@ -739,10 +745,12 @@ void directed_d4() {
   }
 }
 
+bool g_poisoned = false;
 template <class Db>
 void run_one(u64 idx, vh::rng& r, const vh::args& a) {
   history<Db> h(idx, r, a);
   h.run();
+  g_poisoned |= h.poisoned;
 }
 
 void alloc_cb(void* p, std::size_t n) noexcept { vm::alloc_tracker::get().on_alloc(p, n); }
@@ -773,9 +781,11 @@ int main(int argc, char** argv) {
       case 4: run_one<unodb::olc_db<std::uint64_t, V>>(c, r, a); break;
       default: run_one<unodb::olc_db<unodb::key_view, V>>(c, r, a); break;
     }
+    if (g_poisoned) { rep().set_resume(c + 1); break; }  // leaked, possibly corrupt index: continue in a fresh process
     if (rep().violations_for(g_prop) >= 12) break;
   }
   if (a.has("directed") && g_prop == "C01") directed_d4();
   rep().finish();
+  if (g_poisoned) _exit(0);  // skip destructors / leak checking of the deliberately leaked index
   return 0;
 }
